@@ -39,7 +39,6 @@ FINDINGS = [
     ("KF-C11-embptr-null", ("embptrnull",), lambda k, a, b, f: k == "jo-val"),
     ("KF-C11-slice-grow", ("slicestale",), lambda k, a, b, f: k == "jo-val"),
     ("KF-C11-fastmap-dup-null", ("dupnull",), lambda k, a, b, f: k == "of"),
-    ("KF-C11-quoted-string-ws", ("qstrws",), lambda k, a, b, f: k == "jo-err" and a == "E" and b == "O"),
     ("KF-C11-quoted-unmarshaler", ("qunm",), lambda k, a, b, f: k in ("jo-err", "jo-val")),
     ("KF-C11-mapstr-null-merge", ("mapstrnull",), lambda k, a, b, f: k == "jo-val"),
 ]
